@@ -12,6 +12,7 @@ CLAIMED = {
     "C01": ("4/C01", "All paths of MessageSchema.dump/load (and Gateway.send -> Gateway.listen) over symbolic node/child/ack/type and symbolic payload strings up to the stated length are explored to exhaustion; on each path z3 decides the round-trip, exact-format and re-encode assertions for all values following the path. Bounded model checking: nothing is claimed beyond the payload length / type window."),
 }
 CLAIMED["C02"] = ("4/C02", "The real MessageSchema.load is executed on lines built from symbolic integers rendered to text (in-range core per command; single-fault scheme with out-of-range integers or non-numeric class texts at each numeric position; field counts 0..8; three terminators) and z3 decides on every path that accept <=> the predicate spelled in the property, that accepted lines decode to the spelled values and that rejections are ValidationError (InvalidMessageError through Gateway.listen) and nothing else. Path tree exhausted within the bounds; bounded model checking.")
+CLAIMED["C04"] = ("4/C04", "One symbolic step of the real Gateway.listen / incoming handlers from every built pre-state (symbolic registry shape, symbolic node/child/type ids, symbolic payload) is compared with a reference model written from the property statement: outcome (yielded fields or error class naming the missing id), and the complete registry after the step; plus 2-3 line histories through one listen() generator for exactly-once, in-order yields. One step from an arbitrary built state is the inductive step for histories of any length within the shape bound. Path tree exhausted; bounded model checking.")
 PENDING = {
 }
 
